@@ -23,6 +23,9 @@ _counter = itertools.count(1)
 
 
 # ------------------------------------------------------------------------------------------- N1 constants
+_MODULE_CLASSES = set()   # class names bound exactly once at module level of the module being normalised (set by collect_constants)
+
+
 def is_const_expr(n, known):
     if isinstance(n, ast.Constant) and isinstance(n.value, (int, str, bytes, bool, float)) and not (isinstance(n.value, bytes) and len(n.value) > 8):
         return True
@@ -41,6 +44,8 @@ def is_const_expr(n, known):
                    or (isinstance(e, ast.Attribute) and isinstance(e.value, ast.Name) and e.value.id not in ("self", "cls")) for e in n.elts)
     if isinstance(n, ast.Name) and n.id in known:
         return True
+    if isinstance(n, ast.Name) and n.id in _MODULE_CLASSES:
+        return True          # another name for a class of the module (defined or imported once at module level)
     if isinstance(n, ast.Dict) and n.keys and len(n.keys) <= 24 and all(k is not None and (isinstance(k, ast.Constant) or _enum_member(k)) for k in n.keys) \
             and all(isinstance(v, (ast.Name, ast.Constant)) or (isinstance(v, ast.Attribute) and isinstance(v.value, ast.Name) and v.value.id not in ("self", "cls")) for v in n.values):
         return True  # a dispatch table
@@ -48,6 +53,9 @@ def is_const_expr(n, known):
         return True
     if isinstance(n, ast.Call) and ast.unparse(n.func) in ("attrgetter", "operator.attrgetter", "itemgetter", "operator.itemgetter", "struct.Struct", "Struct") \
             and len(n.args) == 1 and isinstance(n.args[0], ast.Constant) and not n.keywords:
+        return True
+    if isinstance(n, ast.Call) and ast.unparse(n.func) in ("attrgetter", "operator.attrgetter", "methodcaller", "operator.methodcaller") \
+            and 1 < len(n.args) <= 8 and all(isinstance(a, ast.Constant) for a in n.args) and not n.keywords:
         return True
     if isinstance(n, ast.Call) and ast.unparse(n.func) in ("partial", "functools.partial") and n.args and isinstance(n.args[0], ast.Attribute) and isinstance(n.args[0].value, ast.Name) \
             and n.args[0].value.id in ("np", "numpy") and not n.args[1:] and all(isinstance(k.value, ast.Constant) for k in n.keywords):
@@ -96,6 +104,16 @@ def collect_constants(tree: ast.Module):
     """({module const name: value node}, {class name: {const name: value node}})"""
     mod = {}
     counts = {}
+    _MODULE_CLASSES.clear()
+    bound = {}
+    for st in tree.body:
+        for nm in ([st.name] if isinstance(st, (ast.ClassDef, ast.FunctionDef)) else [a.asname or a.name for a in st.names] if isinstance(st, ast.ImportFrom)
+                   else [t.id for t in st.targets if isinstance(t, ast.Name)] if isinstance(st, ast.Assign) else []):
+            bound[nm] = bound.get(nm, 0) + 1
+    for st in tree.body:
+        for nm in ([st.name] if isinstance(st, ast.ClassDef) else [a.asname or a.name for a in st.names] if isinstance(st, ast.ImportFrom) else []):
+            if nm[:1].isupper() and bound.get(nm) == 1:
+                _MODULE_CLASSES.add(nm)
     aug_mod = _fold_augmented(tree.body)
     for a in aug_mod:
         counts[a] = 2
@@ -288,12 +306,70 @@ def inline_private_properties(tree):
             if isinstance(s_, ast.FunctionDef) and s_.args.args and not any(s_ is p[2] for p in props.values()):
                 for _ in range(2):
                     P(s_.args.args[0].arg).visit(s_)
-        still = {x.attr for x in ast.walk(cls) if isinstance(x, ast.Attribute) and x.attr in props and not any(x in ast.walk(p[2]) for p in props.values())}
+        still = {x.attr for x in ast.walk(tree) if isinstance(x, ast.Attribute) and x.attr in props and not any(x in ast.walk(p[2]) for p in props.values())}
         for name, (_, _, fn) in props.items():
             if name not in still and name not in public:
                 cls.body = [b for b in cls.body if b is not fn] or [ast.Pass()]
                 n += 1
     return n
+
+
+def inline_private_properties_anywhere(tree):
+    """X._name where `_name` is a private read-only single-return property defined by exactly ONE class of the module and stored
+    nowhere (so whatever X is, if it has `_name` at all it is that property): its expression with self := X.  X must be a plain
+    name / attribute / subscript path (evaluated where the property body uses self, possibly several times)."""
+    defs = {}
+    for cls in [st for st in tree.body if isinstance(st, ast.ClassDef)]:
+        for s_ in cls.body:
+            if isinstance(s_, ast.FunctionDef) and s_.name.startswith("_") and not s_.name.startswith("__") and s_.name not in PROTECTED \
+                    and [ast.unparse(d) for d in s_.decorator_list] == ["property"] and len(s_.args.args) == 1:
+                body = strip_doc(s_.body)
+                if len(body) == 1 and isinstance(body[0], ast.Return) and body[0].value is not None and _pure_expr(body[0].value):
+                    defs.setdefault(s_.name, []).append((cls, s_, s_.args.args[0].arg, body[0].value))
+    for cls in [st for st in tree.body if isinstance(st, ast.ClassDef)]:
+        for s_ in cls.body:
+            if isinstance(s_, ast.FunctionDef) and any(ast.unparse(d).endswith(".setter") for d in s_.decorator_list):
+                defs.pop(s_.name, None)
+    stored = {n.attr for n in ast.walk(tree) if isinstance(n, ast.Attribute) and isinstance(n.ctx, (ast.Store, ast.Del))}
+    other_defs = {}
+    for n in ast.walk(tree):
+        if isinstance(n, ast.FunctionDef):
+            other_defs[n.name] = other_defs.get(n.name, 0) + 1
+    props = {k: v[0] for k, v in defs.items() if len(v) == 1 and k not in stored and other_defs.get(k) == 1}
+    if not props:
+        return 0
+    n_done = [0]
+
+    def plain(e):
+        return isinstance(e, ast.Name) or (isinstance(e, ast.Attribute) and plain(e.value)) or \
+            (isinstance(e, ast.Subscript) and plain(e.value) and isinstance(e.slice, (ast.Name, ast.Constant)) or
+             (isinstance(e, ast.Subscript) and plain(e.value) and isinstance(e.slice, ast.UnaryOp) and isinstance(e.slice.operand, ast.Constant)))
+
+    class P(ast.NodeTransformer):
+        def visit_Attribute(self, node):
+            self.generic_visit(node)
+            if isinstance(node.ctx, ast.Load) and node.attr in props and plain(node.value):
+                cls, fn, sn, expr = props[node.attr]
+                n_done[0] += 1
+                return ast.copy_location(_subst_names(expr, {sn: node.value}), node)
+            return node
+
+    for st in tree.body:
+        if isinstance(st, ast.ClassDef):
+            for s_ in st.body:
+                if isinstance(s_, ast.FunctionDef) and not any(s_ is v[1] for v in props.values()):
+                    for _ in range(2):
+                        P().visit(s_)
+        elif isinstance(st, ast.FunctionDef):
+            P().visit(st)
+    # drop the properties nothing reads any more
+    still = {x.attr for x in ast.walk(tree) if isinstance(x, ast.Attribute) and x.attr in props}
+    for name, (cls, fn, _, _) in props.items():
+        if name not in still:
+            cls.body = [b for b in cls.body if b is not fn] or [ast.Pass()]
+    if n_done[0]:
+        ast.fix_missing_locations(tree)
+    return n_done[0]
 
 
 def simple_generator(body):
@@ -454,6 +530,7 @@ class Inliner:
         self.bases = class_bases
         self.inlined_sites = {}
         self.failed_sites = {}
+        self.ambiguous = set()   # method names defined more than once in the module or stored as attributes somewhere
 
     local_instances = {}  # local name -> class name, for `x = Cls(..)` in the function being processed
 
@@ -480,6 +557,12 @@ class Inliner:
                 if h is not None:
                     return h, f.value
                 stack += self.bases.get(c, [])
+            # <name>._m(..) on any other plain name: `_m` is a plain private method defined by exactly one class of the module
+            # (so if the object has `_m` at all, it is that one)
+            if owner is None and f.attr.startswith("_") and not f.attr.startswith("__"):
+                cands = [h for (c, nm), h in self.helpers.items() if nm == f.attr]
+                if len(cands) == 1 and cands[0].kind == "method" and cands[0].cls is not None and f.attr not in self.ambiguous:
+                    return cands[0], f.value
         return None, None
 
     def bind(self, h: Helper, call, recv, pre):
@@ -814,6 +897,25 @@ class LoopNorm(ast.NodeTransformer):
         if isinstance(seq, ast.Call) and isinstance(seq.func, ast.Name) and seq.func.id == "zip" and not seq.keywords and len(seq.args) >= 2 \
                 and all(isinstance(a, (ast.Tuple, ast.List)) for a in seq.args) and len({len(a.elts) for a in seq.args}) == 1:
             seq = ast.Tuple(elts=[ast.Tuple(elts=[a.elts[k] for a in seq.args], ctx=ast.Load()) for k in range(len(seq.args[0].elts))], ctx=ast.Load())
+        # .. a loop whose only jump is a final `if C: break`:  B1; if not C1: (B2; if not C2: (B3 ..))
+        tail_break = None
+        if isinstance(seq, (ast.Tuple, ast.List)) and 0 < len(seq.elts) <= 12 and not node.orelse and node.body and isinstance(node.body[-1], ast.If) \
+                and not node.body[-1].orelse and len(node.body[-1].body) == 1 and isinstance(node.body[-1].body[0], ast.Break) \
+                and not any(isinstance(n, (ast.Break, ast.Continue)) for s in node.body[:-1] for n in ast.walk(s)) and isinstance(node.target, ast.Name) \
+                and not any(isinstance(n, ast.Name) and n.id == node.target.id and isinstance(n.ctx, ast.Store) for s in node.body for n in ast.walk(s)):
+            tail_break = node.body[-1].test
+            pre = node.body[:-1]
+            out = None
+            for e in reversed(seq.elts):
+                env = {node.target.id: e}
+                step = [_subst_names(s, env) for s in pre]
+                if out is None:
+                    out = step           # the last element: its break changes nothing
+                else:
+                    cond = ast.UnaryOp(op=ast.Not(), operand=_subst_names(tail_break, env))
+                    out = step + [ast.copy_location(ast.If(test=cond, body=out, orelse=[]), node)]
+            ast.fix_missing_locations(ast.Module(body=out, type_ignores=[]))
+            return out
         if isinstance(seq, (ast.Tuple, ast.List)) and 0 < len(seq.elts) <= 12 and not node.orelse \
                 and not any(isinstance(n, (ast.Break, ast.Continue)) for s in node.body for n in ast.walk(s)):
             tnames = [node.target.id] if isinstance(node.target, ast.Name) else \
@@ -885,6 +987,15 @@ def _module_bindings(tree):
     return out
 
 
+def _same_definition(tree, src, name):
+    """both modules bind `name` at module level, once, to the textually same expression (a duplicated codec definition)"""
+    def val(t):
+        vs = [st.value for st in t.body if isinstance(st, ast.Assign) and len(st.targets) == 1 and isinstance(st.targets[0], ast.Name) and st.targets[0].id == name]
+        return ast.unparse(vs[0]) if len(vs) == 1 else None
+    a, b = val(tree), val(src)
+    return a is not None and a == b
+
+
 def import_private_helpers(tree, trees, pkg):
     """`from pkg.mod import _helper`: a private module-level function of another module of the package is copied into the
     importing module (with the imports its body needs), so that it is inlined like a local helper. Skipped when a name its
@@ -914,7 +1025,8 @@ def import_private_helpers(tree, trees, pkg):
                 kind, mod, orig = src_b[nm]
                 want = ("import", mod, orig) if kind == "import" else ("import", st.module, nm)
                 if nm in here:
-                    if here[nm] != want and not (here[nm][0] == "import" and here[nm][2] == want[2] and (here[nm][1] or "").split(".")[-1] == (want[1] or "").split(".")[-1]):
+                    if here[nm] != want and not (here[nm][0] == "import" and here[nm][2] == want[2] and (here[nm][1] or "").split(".")[-1] == (want[1] or "").split(".")[-1]) \
+                            and not _same_definition(tree, src, nm):
                         okk = False
                         break
                 else:
@@ -1039,11 +1151,32 @@ def import_private_methods(tree, trees, pkg, modname):
 def _inline_helpers(tree, bases, info):
     """the helper inlining loop; returns True when a call site was inlined"""
     any_change = False
+    # f(self, a..) where `f` is a plain method of the enclosing class and no module-level name   ==>   self.f(a..)
+    # (the function object taken from the class body, e.g. out of a class-level table of lookups, applied to the instance)
+    modnames = {x.name for x in tree.body if isinstance(x, (ast.FunctionDef, ast.ClassDef))} \
+        | {a.asname or a.name.split(".")[0] for x in tree.body if isinstance(x, (ast.Import, ast.ImportFrom)) for a in x.names} \
+        | {t.id for x in tree.body if isinstance(x, ast.Assign) for t in x.targets if isinstance(t, ast.Name)}
+    for cls_ in [x for x in tree.body if isinstance(x, ast.ClassDef)]:
+        plain = {m.name for m in cls_.body if isinstance(m, ast.FunctionDef) and not m.decorator_list and m.args.args and m.args.args[0].arg == "self"} - modnames
+        if not plain:
+            continue
+        for m in [m for m in cls_.body if isinstance(m, ast.FunctionDef)]:
+            bound_here = {a.arg for a in m.args.args + m.args.kwonlyargs} | {x.id for x in ast.walk(m) if isinstance(x, ast.Name) and isinstance(x.ctx, ast.Store)}
+            for c in ast.walk(m):
+                if isinstance(c, ast.Call) and isinstance(c.func, ast.Name) and c.func.id in plain and c.func.id not in bound_here and c.args \
+                        and isinstance(c.args[0], ast.Name) and c.args[0].id == "self":
+                    c.func = ast.copy_location(ast.Attribute(value=c.args[0], attr=c.func.id, ctx=ast.Load()), c.func)
+                    c.args = c.args[1:]
     for _ in range(3):
         helpers = collect_helpers(tree)
         if not helpers:
             break
         inl = Inliner(helpers, bases)
+        defs_ = {}
+        for x_ in ast.walk(tree):
+            if isinstance(x_, ast.FunctionDef):
+                defs_[x_.name] = defs_.get(x_.name, 0) + 1
+        inl.ambiguous = {k_ for k_, v_ in defs_.items() if v_ > 1} | {x_.attr for x_ in ast.walk(tree) if isinstance(x_, ast.Attribute) and isinstance(x_.ctx, (ast.Store, ast.Del))}
         changed = False
         for st in tree.body:
             if isinstance(st, ast.FunctionDef):
@@ -1087,6 +1220,7 @@ def normalise_module(tree: ast.Module):
     info = {"constants": 0, "inlined": {}, "dropped_helpers": []}
     from .normalize2 import ForwardTemps, NamedTupleReduce, desugar_module, inline_closures, namedtuples
     from . import normalize2 as _n2
+    _n2.extract_private_class_methods(tree)
     nts = namedtuples(tree)
     _n2.NT_NAMES.clear()
     _n2.NT_NAMES.update(nts)
@@ -1108,7 +1242,8 @@ def normalise_module(tree: ast.Module):
     if mod or classes:
         ConstSubst(mod, classes, bases).visit(tree)
     info["closures"] = inline_closures(tree)
-    info["private_properties"] = inline_private_properties(tree)
+    info["private_properties"] = inline_private_properties_anywhere(tree)
+    info["private_properties"] += inline_private_properties(tree)
     AppendLoops().visit(tree)
     Canon().visit(tree)
     LoopNorm().visit(tree)
@@ -1149,7 +1284,8 @@ def normalise_module(tree: ast.Module):
 # ------------------------------------------------------------------------------------------- N5 local copy propagation
 PURE_CALLS = {"len", "any", "all", "isinstance", "range", "enumerate", "min", "max", "sum", "int", "abs", "tuple", "hasattr", "bool", "str", "float",
               "np.dtype", "numpy.dtype", "zip", "sorted", "reversed", "type", "slice", "nullcontext", "contextlib.nullcontext", "frozenset", "set", "list",
-              "partial", "functools.partial", "attrgetter", "operator.attrgetter", "itemgetter", "operator.itemgetter", "product", "itertools.product"}
+              "partial", "functools.partial", "attrgetter", "operator.attrgetter", "itemgetter", "operator.itemgetter", "product", "itertools.product",
+              "methodcaller", "operator.methodcaller"}
 
 
 # read-only AND not raising on well-typed receivers (a call that can raise is not moved: its handler may differ at the use site)
@@ -1459,7 +1595,9 @@ class CopyProp:
         while i < len(stmts):
             st = stmts[i]
             if isinstance(st, ast.Assign) and len(st.targets) == 1 and isinstance(st.targets[0], ast.Name) \
-                    and stores.get(st.targets[0].id) == 1 and st.targets[0].id not in params and _pure_expr(st.value) \
+                    and stores.get(st.targets[0].id) == 1 and st.targets[0].id not in params \
+                    and (_pure_expr(st.value) or (isinstance(st.value, ast.GeneratorExp) and self.loads.get(st.targets[0].id) == 1 and _pure_expr(st.value.generators[0].iter)
+                                                  and self._sole_use_is_iteration(stmts[i + 1:], st.targets[0].id))) \
                     and (not any(isinstance(x, (ast.List, ast.Dict, ast.Set, ast.ListComp, ast.DictComp, ast.SetComp, ast.GeneratorExp))
                                  or (isinstance(x, ast.Call) and isinstance(x.func, ast.Attribute) and x.func.attr in FRESH_METHODS) for x in ast.walk(st.value))
                          or self.loads.get(st.targets[0].id) == 1 or _in_pure_consumer_only(st.value) or st.targets[0].id in self.consumed_only) \
@@ -1485,6 +1623,17 @@ class CopyProp:
                     changed |= self.block(hd.body, stores, params, in_loop)
             i += 1
         return changed
+
+    @staticmethod
+    def _sole_use_is_iteration(rest, name):
+        """the one use of a lazily evaluated generator is the iterable of the NEXT statement (a for loop, possibly through enumerate):
+        its elements are produced while that loop runs, exactly as when the generator expression is written there"""
+        if not rest or not isinstance(rest[0], ast.For):
+            return False
+        it = rest[0].iter
+        if isinstance(it, ast.Call) and ast.unparse(it.func) == "enumerate" and len(it.args) == 1 and not it.keywords:
+            it = it.args[0]
+        return isinstance(it, ast.Name) and it.id == name
 
     def propagate(self, rest, name, value, paths, names, attrs, stores):
         """substitute `name` by `value` in the statements after the definition, stopping at the first statement that may change
@@ -1573,9 +1722,12 @@ class Canon(ast.NodeTransformer):
         self.generic_visit(node)
         if isinstance(node.test, ast.Constant) and isinstance(node.test.value, bool):
             return (node.body if node.test.value else node.orelse) or [ast.copy_location(ast.Pass(), node)]
-        # if T: x = E   ==>   x = E if T else x
+        # if T: x = E   ==>   x = E if T else x      (not while E still calls a private helper: that is inlined as statements first)
         if not node.orelse and len(node.body) == 1 and isinstance(node.body[0], ast.Assign) and len(node.body[0].targets) == 1 \
-                and isinstance(node.body[0].targets[0], ast.Name):
+                and isinstance(node.body[0].targets[0], ast.Name) \
+                and not any(isinstance(c, ast.Call) and ((isinstance(c.func, ast.Attribute) and c.func.attr.startswith("_") and not c.func.attr.startswith("__"))
+                                                         or (isinstance(c.func, ast.Name) and c.func.id.startswith("_") and not c.func.id.startswith("__")))
+                            for c in ast.walk(node.body[0].value)):
             a = node.body[0]
             val = ast.IfExp(test=node.test, body=a.value, orelse=ast.Name(id=a.targets[0].id, ctx=ast.Load()))
             return ast.copy_location(ast.Assign(targets=a.targets, value=val, lineno=node.lineno), node)
@@ -1584,6 +1736,28 @@ class Canon(ast.NodeTransformer):
                 and node.body[0].targets[0].id == node.orelse[0].targets[0].id and node.body[0].targets[0].id.startswith("_inl") and node.body[0].targets[0].id.endswith("_ret"):
             val = ast.IfExp(test=node.test, body=node.body[0].value, orelse=node.orelse[0].value)
             return ast.copy_location(ast.Assign(targets=node.body[0].targets, value=val, lineno=node.lineno), node)
+        # if T: x.a = A  else: x.a = B   ==>   x.a = A if T else B        (x a plain name: the same store either way)
+        if len(node.body) == 1 and len(node.orelse) == 1 and all(isinstance(b, ast.Assign) and len(b.targets) == 1 and isinstance(b.targets[0], ast.Attribute)
+                                                                 and isinstance(b.targets[0].value, ast.Name) for b in (node.body[0], node.orelse[0])) \
+                and ast.unparse(node.body[0].targets[0]) == ast.unparse(node.orelse[0].targets[0]) and node.body[0].targets[0].value.id not in ("self", "cls"):
+            val = ast.IfExp(test=node.test, body=node.body[0].value, orelse=node.orelse[0].value)
+            return ast.copy_location(ast.Assign(targets=node.body[0].targets, value=val, lineno=node.lineno), node)
+        # if T: f = K1; g = K2  else: f = K3; g = K4   ==>   f = K1 if T else K3; g = K2 if T else K4
+        # (a table of flags: the same local names on both arms, each given a literal or a conditional over literals)
+        def _flagval(v):
+            return isinstance(v, ast.Constant) or (isinstance(v, ast.IfExp) and _pure_expr(v.test) and _flagval(v.body) and _flagval(v.orelse)) \
+                or (isinstance(v, (ast.BoolOp, ast.UnaryOp, ast.Compare)) and _pure_expr(v))
+        if len(node.body) == len(node.orelse) >= 2 and _pure_expr(node.test) \
+                and all(isinstance(b, ast.Assign) and len(b.targets) == 1 and isinstance(b.targets[0], ast.Name) and _flagval(b.value) for b in node.body + node.orelse) \
+                and [b.targets[0].id for b in node.body] == [b.targets[0].id for b in node.orelse] and len({b.targets[0].id for b in node.body}) == len(node.body):
+            names = {b.targets[0].id for b in node.body}
+            if not any(isinstance(x, ast.Name) and x.id in names for b in node.body + node.orelse for x in ast.walk(b.value)) \
+                    and not any(isinstance(x, ast.Name) and x.id in names for x in ast.walk(node.test)):
+                outl = []
+                for a, b in zip(node.body, node.orelse):
+                    val = self.visit(ast.IfExp(test=copy.deepcopy(node.test), body=a.value, orelse=b.value))
+                    outl.append(ast.copy_location(ast.Assign(targets=a.targets, value=val, lineno=node.lineno), node))
+                return outl
         # if A: (if B: X)   ==>   if A and B: X
         if not node.orelse and len(node.body) == 1 and isinstance(node.body[0], ast.If) and not node.body[0].orelse:
             inner = node.body[0]
@@ -1606,6 +1780,26 @@ class Canon(ast.NodeTransformer):
             ie = node.value
             mk = lambda e: ast.copy_location(ast.Expr(value=e), node)
             return ast.copy_location(ast.If(test=ie.test, body=[mk(ie.body)], orelse=[mk(ie.orelse)]), node)
+        return node
+
+    def visit_AugAssign(self, node):
+        self.generic_visit(node)
+        # self.xs += [e]   ==>   self.xs.append(e)        (in-place list extension by one element)
+        if isinstance(node.op, ast.Add) and isinstance(node.target, ast.Attribute) and isinstance(node.value, ast.List) and len(node.value.elts) == 1 \
+                and not isinstance(node.value.elts[0], ast.Starred):
+            tgt = copy.deepcopy(node.target)
+            tgt.ctx = ast.Load()
+            call = ast.Call(func=ast.Attribute(value=tgt, attr="append", ctx=ast.Load()), args=[node.value.elts[0]], keywords=[])
+            return ast.copy_location(ast.Expr(value=call), node)
+        return node
+
+    def visit_Raise(self, node):
+        self.generic_visit(node)
+        # raise (A if c else B)   ==>   if c: raise A  else: raise B
+        if isinstance(node.exc, ast.IfExp) and node.cause is None and _pure_expr(node.exc.test):
+            a = ast.copy_location(ast.Raise(exc=node.exc.body, cause=None), node)
+            b = ast.copy_location(ast.Raise(exc=node.exc.orelse, cause=None), node)
+            return ast.copy_location(ast.If(test=node.exc.test, body=[a], orelse=[b]), node)
         return node
 
     def visit_FunctionDef(self, node):
@@ -1662,14 +1856,15 @@ class Canon(ast.NodeTransformer):
                 return [ast.copy_location(ast.Assign(targets=[t], value=v, lineno=node.lineno), node) for t, v in zip(node.targets[0].elts, node.value.elts)]
         # _, x = next(((A, B) for ..), (DA, DB))   ==>   x = next((B for ..), DB)        (`_` is the conventional discard)
         if len(node.targets) == 1 and isinstance(node.targets[0], ast.Tuple) and all(isinstance(t, ast.Name) for t in node.targets[0].elts) \
-                and isinstance(node.value, ast.Call) and ast.unparse(node.value.func) == "next" and len(node.value.args) == 2 and not node.value.keywords \
-                and isinstance(node.value.args[0], ast.GeneratorExp) and isinstance(node.value.args[0].elt, ast.Tuple) and isinstance(node.value.args[1], ast.Tuple) \
-                and len(node.value.args[0].elt.elts) == len(node.value.args[1].elts) == len(node.targets[0].elts):
+                and isinstance(node.value, ast.Call) and ast.unparse(node.value.func) == "next" and len(node.value.args) in (1, 2) and not node.value.keywords \
+                and isinstance(node.value.args[0], ast.GeneratorExp) and isinstance(node.value.args[0].elt, ast.Tuple) \
+                and (len(node.value.args) == 1 or (isinstance(node.value.args[1], ast.Tuple) and len(node.value.args[1].elts) == len(node.targets[0].elts))) \
+                and len(node.value.args[0].elt.elts) == len(node.targets[0].elts):
             keep = [k for k, t in enumerate(node.targets[0].elts) if t.id != "_"]
             if len(keep) == 1:
                 k = keep[0]
                 gen = ast.GeneratorExp(elt=node.value.args[0].elt.elts[k], generators=node.value.args[0].generators)
-                call = ast.Call(func=node.value.func, args=[gen, node.value.args[1].elts[k]], keywords=[])
+                call = ast.Call(func=node.value.func, args=[gen] + ([node.value.args[1].elts[k]] if len(node.value.args) == 2 else []), keywords=[])
                 return ast.copy_location(ast.Assign(targets=[node.targets[0].elts[k]], value=self.visit(call), lineno=node.lineno), node)
         # a.x, b = E1, E2  ==>  a.x = E1; b = E2     (every later value is pure and reads neither an earlier target nor its object)
         if len(node.targets) == 1 and isinstance(node.targets[0], ast.Tuple) and isinstance(node.value, ast.Tuple) \
@@ -1718,6 +1913,16 @@ class Canon(ast.NodeTransformer):
         def _boolish(e):
             return isinstance(e, (ast.Compare, ast.BoolOp)) or (isinstance(e, ast.UnaryOp) and isinstance(e.op, ast.Not)) \
                 or (isinstance(e, ast.Call) and ast.unparse(e.func) in ("isinstance", "any", "all", "bool"))
+        if isinstance(node.body, ast.Constant) and isinstance(node.body.value, bool) and _boolish(node.test) \
+                and (_boolish(node.orelse) or (isinstance(node.orelse, ast.Constant) and isinstance(node.orelse.value, bool))):
+            # True if c else X  ==>  c or X ;   False if c else X  ==>  not c and X
+            if isinstance(node.orelse, ast.Constant):
+                if node.body.value == node.orelse.value:
+                    return node.body
+                return node.test if node.body.value else ast.copy_location(ast.UnaryOp(op=ast.Not(), operand=node.test), node)
+            if node.body.value:
+                return ast.copy_location(ast.BoolOp(op=ast.Or(), values=[node.test, node.orelse]), node)
+            return ast.copy_location(ast.BoolOp(op=ast.And(), values=[ast.UnaryOp(op=ast.Not(), operand=node.test), node.orelse]), node)
         if isinstance(node.orelse, ast.Constant) and isinstance(node.orelse.value, bool) and _boolish(node.body) and _boolish(node.test):
             if node.orelse.value:
                 return ast.copy_location(ast.BoolOp(op=ast.Or(), values=[ast.UnaryOp(op=ast.Not(), operand=node.test), node.body]), node)
@@ -1763,6 +1968,13 @@ class Canon(ast.NodeTransformer):
                 K = node.comparators[0].elts[0]
                 gen = ast.GeneratorExp(elt=ast.Compare(left=L.elt, ops=[ast.Eq()], comparators=[K]), generators=L.generators)
                 return ast.copy_location(ast.Call(func=ast.Name(id="all", ctx=ast.Load()), args=[gen], keywords=[]), node)
+        # (a, b, c) == (x, y, z)  ==>  a == x and b == y and c == z        (same length; != is the negation)
+        if len(node.ops) == 1 and isinstance(node.ops[0], (ast.Eq, ast.NotEq)) and isinstance(node.left, ast.Tuple) and isinstance(node.comparators[0], ast.Tuple) \
+                and len(node.left.elts) == len(node.comparators[0].elts) > 0 and not any(isinstance(e, ast.Starred) for e in node.left.elts + node.comparators[0].elts) \
+                and all(_pure_expr(e) for e in node.left.elts + node.comparators[0].elts) and not all(isinstance(e, ast.Constant) for e in node.left.elts + node.comparators[0].elts):
+            conj = ast.BoolOp(op=ast.And(), values=[ast.Compare(left=a, ops=[ast.Eq()], comparators=[b]) for a, b in zip(node.left.elts, node.comparators[0].elts)])
+            res = conj if isinstance(node.ops[0], ast.Eq) else ast.UnaryOp(op=ast.Not(), operand=conj)
+            return ast.copy_location(res, node)
         # (A if c else B) op K  ==>  (A op K) if c else (B op K)      (K a literal; c pure)
         if len(node.ops) == 1 and isinstance(node.ops[0], (ast.Eq, ast.NotEq)) and isinstance(node.left, ast.IfExp) and _lit(node.comparators[0]) \
                 and _pure_expr(node.left.test) and _pure_expr(node.left.body) and _pure_expr(node.left.orelse):
@@ -1866,6 +2078,10 @@ class Canon(ast.NodeTransformer):
             other = b if (isinstance(a, ast.Constant) and a.value == 0) else (a if (isinstance(b, ast.Constant) and b.value == 0) else None)
             if other is not None:
                 return ast.copy_location(ast.Call(func=node.func, args=[other], keywords=[]), node)
+        # len(np.array(ROWS[, dtype=..]))  ==>  len(ROWS)        (ROWS a list display / comprehension: one array row per element)
+        if fname == "len" and len(node.args) == 1 and isinstance(node.args[0], ast.Call) and ast.unparse(node.args[0].func) in ("np.array", "np.asarray", "numpy.array", "numpy.asarray") \
+                and node.args[0].args and isinstance(node.args[0].args[0], (ast.ListComp, ast.List)) and all(k.arg == "dtype" for k in node.args[0].keywords):
+            return self.visit_Call(ast.copy_location(ast.Call(func=node.func, args=[node.args[0].args[0]], keywords=[]), node))
         # len([E for x in IT])  ==>  len(IT)
         if fname == "len" and len(node.args) == 1 and isinstance(node.args[0], (ast.ListComp, ast.GeneratorExp)) and len(node.args[0].generators) == 1 \
                 and not node.args[0].generators[0].ifs and _pure_expr(node.args[0].elt):
@@ -2039,6 +2255,16 @@ class Canon(ast.NodeTransformer):
 
     def visit_Subscript(self, node):
         self.generic_visit(node)
+        # next(((A, B) for ..)[, (DA, DB)])[k]   ==>   next((<k-th> for ..)[, <k-th default>])
+        if isinstance(node.ctx, ast.Load) and isinstance(node.slice, ast.Constant) and isinstance(node.slice.value, int) and isinstance(node.value, ast.Call) \
+                and ast.unparse(node.value.func) == "next" and node.value.args and isinstance(node.value.args[0], ast.GeneratorExp) and isinstance(node.value.args[0].elt, ast.Tuple) \
+                and 0 <= node.slice.value < len(node.value.args[0].elt.elts) and not node.value.keywords \
+                and (len(node.value.args) == 1 or (len(node.value.args) == 2 and isinstance(node.value.args[1], ast.Tuple) and len(node.value.args[1].elts) == len(node.value.args[0].elt.elts))):
+            k = node.slice.value
+            g = node.value.args[0]
+            gen = ast.GeneratorExp(elt=g.elt.elts[k], generators=g.generators)
+            args = [gen] + ([node.value.args[1].elts[k]] if len(node.value.args) == 2 else [])
+            return self.visit_Call(ast.copy_location(ast.Call(func=node.value.func, args=args, keywords=[]), node))
         # {True: A, False: B}[c]  ==>  A if c else B
         if isinstance(node.value, ast.Dict) and len(node.value.keys) == 2 and all(isinstance(k, ast.Constant) and isinstance(k.value, bool) for k in node.value.keys) \
                 and {k.value for k in node.value.keys} == {True, False} and isinstance(node.ctx, ast.Load):
@@ -2234,6 +2460,21 @@ class AppendLoops(ast.NodeTransformer):
     def _block(self, stmts):
         out = []
         i = 0
+        # x = Cls(.., a=K, ..)            x.a = E      (next statement; K a literal placeholder; E does not mention x)
+        # ==>  x = Cls(.., a=E, ..)       the object is created with the value it is given a line later
+        k = 0
+        while k + 1 < len(stmts):
+            a, b = stmts[k], stmts[k + 1]
+            if isinstance(a, ast.Assign) and len(a.targets) == 1 and isinstance(a.targets[0], ast.Name) and isinstance(a.value, ast.Call) and isinstance(a.value.func, ast.Name) \
+                    and a.value.func.id in CLASS_NAMES and isinstance(b, ast.Assign) and len(b.targets) == 1 and isinstance(b.targets[0], ast.Attribute) \
+                    and isinstance(b.targets[0].value, ast.Name) and b.targets[0].value.id == a.targets[0].id:
+                kw = next((q for q in a.value.keywords if q.arg == b.targets[0].attr), None)
+                if kw is not None and isinstance(kw.value, ast.Constant) and not any(isinstance(x, ast.Name) and x.id == a.targets[0].id for x in ast.walk(b.value)) \
+                        and all(isinstance(q.value, (ast.Name, ast.Constant, ast.Attribute)) for q in a.value.keywords) and all(isinstance(q, (ast.Name, ast.Constant, ast.Attribute)) for q in a.value.args):
+                    kw.value = b.value
+                    stmts = stmts[:k + 1] + stmts[k + 2:]
+                    continue
+            k += 1
         # if C: A..; return [v]      raise X        ==>   if not C: raise X      A..; return [v]
         # (guard-clause form: the refusal first; both orders run exactly one of the two arms)
         if len(stmts) >= 2 and isinstance(stmts[-1], ast.Raise) and isinstance(stmts[-2], ast.If) and not stmts[-2].orelse and stmts[-2].body \
@@ -2241,6 +2482,15 @@ class AppendLoops(ast.NodeTransformer):
             iff = stmts[-2]
             flipped = ast.copy_location(ast.If(test=ast.UnaryOp(op=ast.Not(), operand=iff.test), body=[stmts[-1]], orelse=[]), iff)
             stmts = stmts[:-2] + [flipped] + list(iff.body)
+        # try: x = E  except ..: raise ..        return x     ==>   try: return E  except ..: raise ..
+        # (every handler leaves by raising, so the statement after the try runs only with x = E)
+        if len(stmts) >= 2 and isinstance(stmts[-1], ast.Return) and isinstance(stmts[-1].value, ast.Name) and isinstance(stmts[-2], ast.Try):
+            t = stmts[-2]
+            if len(t.body) == 1 and isinstance(t.body[0], ast.Assign) and len(t.body[0].targets) == 1 and isinstance(t.body[0].targets[0], ast.Name) \
+                    and t.body[0].targets[0].id == stmts[-1].value.id and not t.orelse and not t.finalbody and t.handlers \
+                    and all(h.body and isinstance(h.body[-1], ast.Raise) for h in t.handlers):
+                t.body = [ast.copy_location(ast.Return(value=t.body[0].value), t.body[0])]
+                stmts = stmts[:-1]
         while i < len(stmts):
             st = stmts[i]
             nxt = stmts[i + 1] if i + 1 < len(stmts) else None
@@ -2373,6 +2623,13 @@ class AppendLoops(ast.NodeTransformer):
             if isinstance(st, ast.For) and st.orelse and always_exits(st.orelse) and isinstance(st.target, ast.Name) and len(st.body) == 1 \
                     and isinstance(st.body[0], ast.If) and not st.body[0].orelse and len(st.body[0].body) == 1 and isinstance(st.body[0].body[0], ast.Break):
                 x = st.target.id
+                if not any(isinstance(n_, ast.Name) and n_.id == x for s_ in stmts[i + 1:] for n_ in ast.walk(s_)):
+                    # the element found is not used afterwards: only whether one exists matters
+                    anyc = ast.Call(func=ast.Name(id="any", ctx=ast.Load()), keywords=[],
+                                    args=[ast.GeneratorExp(elt=st.body[0].test, generators=[ast.comprehension(target=ast.Name(id=x, ctx=ast.Store()), iter=st.iter, ifs=[], is_async=0)])])
+                    out.append(ast.copy_location(ast.If(test=ast.UnaryOp(op=ast.Not(), operand=anyc), body=st.orelse, orelse=[]), st))
+                    i += 1
+                    continue
                 gen = ast.GeneratorExp(elt=ast.Name(id=x, ctx=ast.Load()), generators=[ast.comprehension(target=ast.Name(id=x, ctx=ast.Store()), iter=st.iter, ifs=[st.body[0].test], is_async=0)])
                 call = ast.Call(func=ast.Name(id="next", ctx=ast.Load()), args=[gen, ast.Constant(value=None)], keywords=[])
                 out.append(ast.copy_location(ast.Assign(targets=[ast.Name(id=x, ctx=ast.Store())], value=call, lineno=st.lineno), st))
